@@ -205,9 +205,16 @@ class PumlParser(DiagramParser):
 
     @classmethod
     def _get_modules_by_alias(cls, modules: set[Module]) -> dict[str, str]:
-        return {
-            module.alias: module.name for module in modules if module.alias is not None
-        }
+        modules_by_alias: dict[str, str] = {}
+        for module in modules:
+            if module.alias is None:
+                continue
+            # which component wins would otherwise depend on the iteration order of a set
+            if modules_by_alias.setdefault(module.alias, module.name) != module.name:
+                raise PumlParsingError(
+                    f"Alias {module.alias} is used for more than one component."
+                )
+        return modules_by_alias
 
     @classmethod
     def _unify_module(cls, module: str, all_aliases: dict[str, str]) -> str:
